@@ -39,7 +39,8 @@ QUICK = {'budget_s': 40}
 THOROUGH = {'budget_s': 480}
 EXPECTED_PROBES = ['connected', 'auth_no_keys', 'auth_non_token', 'signature_accepted', 'public_key_offered',
                    'public_key_timeout', 'noise_before_cnxn', 'silence', 'corrupt_frame', 'malformed_banner',
-                   'id_wrap', 'ids_exhausted', 'open_refused', 'remote_close', 'host_close', 'illegal_packet', 'remote_close_demultiplexed']
+                   'id_wrap', 'ids_exhausted', 'open_refused', 'remote_close', 'host_close', 'illegal_packet', 'remote_close_demultiplexed',
+                   'concurrent_host_close']
 
 _m = {}
 OK_ERRORS = ('DeviceAuthError', 'AdbProtocolError', 'AdbDataIntegrityError', 'AdbTimeoutError', 'UsbReadFailedError')
@@ -307,6 +308,10 @@ def run_streams(tape):
   probes = {}
   faults = {}
   hist = []
+  closers = []
+  closer_out = []
+  # (like the early host closes above: only when ids are not reused within the run)
+  concurrent_close = tape.chance(500, 'concurrent_close') and limit > nsvc + 1
   saved_limit = ap.STREAM_ID_LIMIT
   with env.NoGC(25):
     sim = core.Sim(tape, env.TRACE_PREFIXES, knobs)
@@ -344,6 +349,15 @@ def run_streams(tape):
                                  if dict(plan)[sv] == 'keep') + [rec['local']]
         if what in ('keep', 'keep_remote_closes'):
           live[s] = stream
+          if what == 'keep_remote_closes' and concurrent_close:
+            # a second host thread closes it while this one goes on reading other streams - and so
+            # demultiplexes the device's own CLSE for it
+            probes['concurrent_host_close'] = 1
+            cth = threading.Thread(target=wadb.closer, args=(sim, stream, tape.pick([0, 0.001, 0.05], 'cdelay'), closer_out),
+                                   name='closer-%s' % s)
+            cth.daemon = True
+            cth.start()
+            closers.append(cth)
         elif what == 'close_now':
           stream.close(200)
           rec['closed'] = 'host'
@@ -371,6 +385,8 @@ def run_streams(tape):
             rec['end'] = type(e).__name__
             rec['msg'] = str(e)[:80]
           rec['data'] = ''.join(data)
+      for cth in closers:
+        cth.join()
       # finally close what was kept
       for s, stream in sorted(live.items()):
         stream.close(200)
